@@ -8,6 +8,7 @@
 -/
 import Depccg.OpsMore
 import Depccg.Lazy
+import Depccg.Cli
 import Depccg.OpsSearch
 
 namespace Depccg
@@ -109,6 +110,51 @@ def lazyOp (seenOf : String → Option (Option (List (Cat × Cat)))) (unaryOf : 
           | .ok (outs, gst) =>
             "ok " ++ toString gst.cats.length ++ String.join (outs.map fun r => " || " ++ encSent r)
     | _, _ => "bad-op"
+  | _ => "bad-op"
+
+/-! ### `cli`: the whole program (Cli.mainText)
+
+  cli <en|ja> <seen|-> <unary> <format> <piped 0|1> <root-cats> <penalty> <pruning> <nbest> <maxStep> <maxLength> <procs>
+      <nlines> <line>* <ncats> <category text>* <M> { <n> <tags n*K> <deps n*(n+1)> <0|1 passes> [<passes n*K>] }*M -/
+
+def pScores (K : Nat) : P Cli.Scores := fun ts => do
+  let (n, ts) ← pNat ts
+  let (tags, ts) ← pRows n K ts
+  let (deps, ts) ← pRows n (n + 1) ts
+  let (up, ts) ← pNat ts
+  let (passes, ts) ← (if up != 0 then pRows n K ts else some ([], ts))
+  pure ({ tags := tags, deps := deps, passes := passes.map (·.map (· != 0)) }, ts)
+
+def fmtOfName : String → Option Cli.Fmt
+  | "auto" => some .auto | "auto_extended" => some .autoExt | "conll" => some .conll
+  | "ptb" => some .ptb | "deriv" => some .deriv | "ja" => some .ja | _ => none
+
+def cliOp (seenOf : String → Option (Option (List (Cat × Cat)))) (unaryOf : String → Option (List (Cat × List Cat)))
+    (ts : List String) : String :=
+  match ts with
+  | lang :: sn :: un :: fm :: rest =>
+    match seenOf sn, unaryOf un, fmtOfName fm with
+    | some seen, some table, some fmt =>
+      match (do
+        let (piped, ts) ← pNat rest
+        let (rootCats, ts) ← pStr ts
+        let (pen, ts) ← pInt ts
+        let (pr, ts) ← pNat ts
+        let (nb, ts) ← pNat ts
+        let (ms, ts) ← pNat ts
+        let (ml, ts) ← pNat ts
+        let (procs, ts) ← pNat ts
+        let (lines, ts) ← pList pStr ts
+        let (tagCats, ts) ← pList pStr ts
+        let (scores, ts) ← pList (pScores tagCats.length) ts
+        if ts.isEmpty then pure (piped, rootCats, pen, pr, nb, ms, ml, procs, lines, tagCats, scores) else none) with
+      | none => "bad-op"
+      | some (piped, rootCats, pen, pr, nb, ms, ml, procs, lines, tagCats, scores) =>
+        let G := grammarFor (lang == "en") seen table
+        let o : Cli.Opts := { cfg := { penalty := pen, pruning := pr, nbest := nb, maxStep := ms }, maxLength := ml,
+                              procs := procs, rootCats := rootCats, piped := piped != 0, format := fmt }
+        encExcept encStr (Cli.mainText G o lines tagCats scores)
+    | _, _, _ => "bad-op"
   | _ => "bad-op"
 
 end OpsLazy
